@@ -33,5 +33,7 @@ def run(prog, chk):
     root, _fb, _n = T.policy("KSI_VERIFICATION_POLICY_INTERNAL")
     PC.check_verdicts(prog, chk, "C01.verdicts", T.basic_rules(root))
     PC.check_guards(prog, chk, "C01.guards", T.basic_rules(root))
+    chk.rule("C01.okgate", "no internal rule reports OK on a path that left a failed helper call", floor=20)
+    PC.check_ok_after_failure(prog, chk, "C01.okgate", T.basic_rules(root))
     chk.rule("C01.metadata", "INT-11: metadata padding / imprint ambiguity scenario table", floor=15)
     PC.check_metadata(prog, chk, "C01.metadata")
